@@ -28,7 +28,8 @@ impl Perform for Recorder {
     fn esc_dispatch(&mut self, _: &[u8], _: bool, _: u8) { self.cbs.push(Cb::Esc); }
 }
 
-const TEXT: [&str; 12] = ["a", "b", "hello", " ", "\t", "中", "文字", "é", "x y", "-", "_", "0"];
+// includes zero-width code points (combining accent, zero-width space, variation selector): each counts as one character
+const TEXT: [&str; 16] = ["a", "b", "hello", " ", "\t", "中", "文字", "é", "x y", "-", "_", "0", "e\u{301}", "\u{200b}", "x\u{fe0f}", "\u{301}"];
 
 fn gen_sgr_params(r: &mut Rng) -> String {
     let n = 1 + r.below(4);
